@@ -413,7 +413,7 @@ def c13(pid, tier, seed, t0):
                       required=("option_Hash_values", "option_Threads_values", "option_Move_Overhead_values", "hash_0",
                                 "hash_1024", "values_set_before_first_search", "values_set_between_searches",
                                 "sessions_setting_options_right_after_bestmove", "values_set_after_the_position_command",
-                                "values_followed_by_ucinewgame", "values_sent_a_second_time"),
+                                "values_followed_by_ucinewgame", "values_sent_a_second_time", "values_written_zero_padded_or_signed"),
                       assumptions=["the quantifier is what the binary itself advertises in its 'option' lines",
                                    "the free-text SyzygyPath option is outside the property"])
 
@@ -426,7 +426,7 @@ def c17(pid, tier, seed, t0):
                                 "games_with_promo_b", "games_with_promo_n", "games_from_fen", "games_from_startpos",
                                 "games_with_session_step", "games_with_session_step_after_ucinewgame",
                                 "sessions_with_command_right_after_bestmove_delay", "games_with_long_game",
-                                "games_with_command_between_position_and_dump"),
+                                "games_with_command_between_position_and_dump", "games_from_a_four_field_fen"),
                       assumptions=["games and expectations come from refchess; the en-passant field of the FEN dump is "
                                    "accepted under any single recording convention"])
 
